@@ -326,7 +326,17 @@ where
         }
         let record = Record::create(key, timestamp.into(), value, meta)
             .with_context(|| "storage write with record creation failed")?;
-        let safe = self.inner.safe.read().await;
+        let mut safe = self.inner.safe.read().await;
+        while safe.active_blob.is_none() {
+            // Active blob was closed concurrently after the check at the beginning of this function
+            drop(safe);
+            if let Err(e) = self.try_create_active_blob().await {
+                if !matches!(e.downcast_ref::<Error>().map(Error::kind), Some(ErrorKind::ActiveBlobExists)) {
+                    return Err(e);
+                }
+            }
+            safe = self.inner.safe.read().await;
+        }
         let blob = safe
             .active_blob
             .as_ref()
